@@ -128,3 +128,14 @@ Theorem C05_check_control_statement_returns_on_else_paren :
   check_control_statement else_paren_tokens 2 else_paren_view = Ok ([], else_paren_view).
 Proof. exact check_control_statement_returns_on_else_paren. Qed.
 Print Assumptions C05_check_control_statement_returns_on_else_paren.
+
+(* ---- third batch (Gen/NameChecks.v): CheckComment is a total function in the model; CheckIdentifierName *)
+From NV Require Import Model.NameBase Gen.NameChecks Proofs.NameChecksProofs.
+Theorem C05_check_identifier_name_total_in_registry : forall toks last glob udt f fpos vars t0 t,
+  peek toks 0 = Some t0 -> peek toks fpos = Some t -> exists E, check_identifier_name toks last glob udt (Some f) fpos vars = Ok E.
+Proof. exact ident_total_in_registry. Qed.
+Print Assumptions C05_check_identifier_name_total_in_registry.
+Theorem C05_check_identifier_name_crash_without_name : forall toks udt fpos vars,
+  check_identifier_name toks ident_func_rule true udt None fpos vars = Crash IndexError.
+Proof. exact ident_crash_without_name. Qed.
+Print Assumptions C05_check_identifier_name_crash_without_name.
